@@ -35,6 +35,11 @@ MUTS = {
     "M19_v0_inverse_transform": ("write_font.py", "            glyph_name = _create_transformed_glyph(\n                color_glyph, paint_glyph, context.transform\n            ).name", "            glyph_name = _create_transformed_glyph(\n                color_glyph, paint_glyph, context.transform.inverse()\n            ).name", ["C03"]),
     "M20_inline_shared_component": ("write_font.py", "            and glyph_uses[parent_glyph.components[0].baseGlyph] == 1\n", "            and glyph_uses[parent_glyph.components[0].baseGlyph] >= 1\n", ["C03"]),
     "M21_no_extents": ("write_font.py", "    if rectArea(bounds) == 0:\n        return\n", "    return\n", ["C03"]),
+    "M22_skip_ligature_for_hashed_name": ("features.py", "        target = glyph_name(rgi)\n", "        target = glyph_name(rgi)\n        if len(\"_\".join(\"%x\" % c for c in rgi)) > 63:\n            continue\n", ["C04"]),
+    "M23_blanks_only_when_no_single": ("write_font.py", "    need_blanks = all_codepoints - direct_mapped_codepoints\n", "    need_blanks = (all_codepoints - direct_mapped_codepoints) if not direct_mapped_codepoints else set()\n", ["C04"]),
+    "M25_svg_gid_not_updated": ("svg.py", "    _ensure_groups_grouped_in_glyph_order(color_glyphs, ttfont, reuse_groups)\n", "    pass\n", ["C04", "C02", "C07"]),
+    "M26_fea_reverse_length_order": ("features.py", "    for rgi in sorted(rgi_sequences):\n", "    for rgi in sorted(rgi_sequences, key=lambda r: (-len(r), r)):\n", ["C04"]),
+    "M26b_F5_reverted_name_collision": ("glyph.py", "    if not name[0].isalpha() or name.startswith(\"g_\"):\n", "    if not name[0].isalpha():\n", ["C04", "C10"]),
     "M24_min_advance": ("color_glyph.py", "    return max(config.width, round(font_height * view_box.w / view_box.h))", "    return min(config.width, round(font_height * view_box.w / view_box.h)) if config.width else round(font_height * view_box.w / view_box.h)", ["C04", "C01"]),
     "M27_bounds_ignore_transform": ("write_font.py", "    if not transform.almost_equals(Affine2D.identity()):\n        pen = TransformPen(bounds_pen, transform)", "    if False:\n        pen = TransformPen(bounds_pen, transform)", ["C05"]),
     "M72_cx_uses_sy": ("paint.py", "                    cx = dx / (1 - sx)\n", "                    cx = dx / (1 - sy) if sy != 1 else dx / (1 - sx)\n", ["C16"]),
@@ -53,6 +58,11 @@ MUTS = {
     "M82_normalize_tolerance_div1000": ("glyph_reuse.py", "        self._normalize_tolerance = self._reuse_tolerance / 10\n", "        self._normalize_tolerance = self._reuse_tolerance / 1000\n", ["C19"]),
     "M83_no_reuse_when_mirrored": ("glyph_reuse.py", "        # https://github.com/googlefonts/nanoemoji/issues/313 avoid out of bounds affines\n", "        if affine.determinant() < 0:\n            return None\n", ["C19"]),
     "M84_cache_keyed_by_raw_path": ("glyph_reuse.py", "        norm_path = normalize(SVGPath(d=path), self._normalize_tolerance).d\n        if norm_path not in self._reusable_paths:", "        norm_path = path\n        if norm_path not in self._reusable_paths:", ["C19"]),
+    "M64_floor_ppem": ("bitmap_tables.py", "    return round(config.upem * pixels / funits)\n", "    return int(config.upem * pixels / funits)\n", ["C14"]),
+    "M65_y_offset_no_half_difference": ("bitmap_tables.py", "                round(line_ascent - 0.5 * (line_height - config.bitmap_resolution)),", "                round(line_ascent),", ["C14"]),
+    "M66_strike_not_split_at_gap": ("bitmap_tables.py", "            and color_glyphs[end].glyph_id == color_glyphs[end - 1].glyph_id + 1\n", "            and color_glyphs[end].glyph_id >= color_glyphs[end - 1].glyph_id + 1\n", ["C14"]),
+    "M67_offsets_wrong_base": ("bitmap_tables.py", "    data_offset = CBDT_HEADER_SIZE\n\n    while color_glyphs:", "    data_offset = 0\n\n    while color_glyphs:", ["C14"]),
+    "M67b_advance_uses_config_width_only": ("bitmap_tables.py", "    width_funits = max(config.width, width_funits)\n", "    width_funits = config.width or width_funits\n", ["C14"]),
     "M68_unindexed_popleft": ("colors.py", "            result[i] = cpal_colors.pop()\n", "            result[i] = cpal_colors.popleft() if cpal_colors[0].palette_index is None else cpal_colors.pop()\n", ["C15"]),
     "M69_slots_len_only": ("colors.py", "    cpal_slots = max(len(all_colors), max(indexed_colors, default=-1) + 1)", "    cpal_slots = max(len(all_colors), len(indexed_colors))", ["C15"]),
     "M70_conflict_by_rgb_only": ("colors.py", "            if color.palette_index in indexed_colors:\n", "            if color.palette_index in indexed_colors and indexed_colors[color.palette_index][:3] != color[:3]:\n", ["C15"]),
